@@ -226,5 +226,5 @@ func (c *curvePoint) Neg(a *curvePoint) {
 	c.x.Set(&a.x)
 	gfpNeg(&c.y, &a.y)
 	c.z.Set(&a.z)
-	c.t = gfP{0}
+	c.t.Set(&a.t) // same z, same t = z² (see twistPoint.Neg)
 }
